@@ -15,6 +15,8 @@ class References:
     """
     if len(self.segment_names) == 1:
       return []
+    # (at vlevel 0 the number of overlaps was not checked yet)
+    self._validate_lists_size()
     has_undef_overlaps = self._undef_overlaps()
     retval = []
     is_circular = self.is_circular()
